@@ -149,6 +149,36 @@ Definition h_count (a : list sx) : sx :=
   | _ => err "arity"
   end.
 
+(* (get_index ((#name is_range) ...) ARG) with ARG = () default | (0) False | ((#name ...)) -> (#name ...) *)
+Definition as_idxarg (s : sx) : option idxarg :=
+  match s with
+  | SL [] => Some INone
+  | SL [SZ _] => Some IFalse
+  | SL [SL l] => option_map INames (all_some (map as_bytes l))
+  | _ => None
+  end.
+Definition h_get_index (a : list sx) : sx :=
+  match a with
+  | [stored; arg] =>
+    match as_list_of (as_pair as_bytes as_bool) stored, as_idxarg arg with
+    | Some stored, Some arg => slist SB (get_index stored arg)
+    | _, _ => err "args"
+    end
+  | _ => err "arity"
+  end.
+
+(* (frame_columns (#col ...) (#cat ...) REQUEST? (#idx ...)) -> (#name ...) *)
+Definition h_frame_columns (a : list sx) : sx :=
+  match a with
+  | [cols; cats; req; idx] =>
+    match as_list_of as_bytes cols, as_list_of as_bytes cats, as_opt (as_list_of as_bytes) req, as_list_of as_bytes idx with
+    | Some cols, Some cats, Some req, Some idx => slist SB (frame_columns cols cats req idx)
+    | _, _, _, _ => err "args"
+    end
+  | _ => err "arity"
+  end.
+
 Definition table : list (string * handler) :=
   [("typemap", h_typemap); ("predict", h_predict); ("realise", h_realise); ("null_evidence", h_null_evidence);
-   ("check_categories", h_check_categories); ("count", h_count)].
+   ("check_categories", h_check_categories); ("count", h_count);
+   ("get_index", h_get_index); ("frame_columns", h_frame_columns)].
